@@ -14,7 +14,7 @@ PID = "C10"
 LEVEL = "exploration"
 
 SEPS = (" ", "  ", "\t", " \t ")
-TRAILS = ("", " ", "\t ")
+TRAILS = ("", " ", "\t ", "\r")   # "\r": a file with Windows line ends
 
 
 def variants(tier):
